@@ -165,12 +165,12 @@ def check_prefix(ctx, p, key, i, e):
 
     def eq_true(x, y):
         return any(c[0][0] == "cmp" and c[0][1] == "eq" and set((c[0][2], c[0][3])) == set((x, y)) and c[1] is True and c[3] <= i for c in p.conds)
-    if D[0] == "call" and D[1].endswith("Index>::index") and D[2][1] == ("lit", 2):
+    if D[0] == "index" and D[2] == ("lit", 2):
         # collected form: parts = denom.splitn(3, '/').collect(); parts.len() == 3; parts[0], parts[1], parts[2]
-        segs = D[2][0]
+        segs = D[1]
 
         def seg(n):
-            return ("call", D[1], (segs, ("lit", n)))
+            return ("index", segs, ("lit", n))
         c3 = eq_true(("call", "len", (segs,)), ("lit", 3))
         cp = eq_true(seg(0), ("field", src, "port_id"))
         cc = eq_true(seg(1), ("field", src, "channel_id"))
